@@ -158,6 +158,9 @@ theorem outflow_only_by_collector (C : Crypto) (st : State) (ctx : Ctx) (func : 
     all_goals (first | (cases h; simp at hs) | skip)
   · repeat' (first | (cases h; done) | (split at h))
     all_goals (first | (cases h; simp at hs) | skip)
+  · -- upgradeContract: nothing is sent
+    repeat' (first | (cases h; done) | (split at h))
+    all_goals (first | (cases h; simp at hs) | skip)
   · cases h
 
 /-- **The collector is replaced only by the collector or the owner.** -/
@@ -177,6 +180,9 @@ theorem collector_changes_only_by_collector_or_owner (C : Crypto) (st : State) (
     rename_i hc
     exact ⟨rfl, by simpa using hc⟩
   · repeat' (first | (cases h; done) | (split at h))
+    all_goals (first | (cases h; exact absurd rfl hne) | skip)
+  · -- upgradeContract: the collector stays
+    repeat' (first | (cases h; done) | (split at h))
     all_goals (first | (cases h; exact absurd rfl hne) | skip)
   · cases h
 
